@@ -57,10 +57,14 @@ Definition kids_of {A} (f : field) (kids : list (field * list A)) : list A :=
 Definition is_listw (k : kind) : bool := match k with KListW => true | _ => false end.
 
 (* flavour of a child: parts of a struct (KOne, reached by &n.F) share the flavour of the struct;
-   the elements of a wrapper list are loop-variable copies; everything reached through a pointer,
+   the elements of a wrapper list walked by a by-value range are loop-variable copies; everything reached through a pointer,
    an interface or a slice is the tree's own memory again. *)
-Definition child_fl (k : kind) (fl : flavour) : flavour :=
-  match k with KOne => fl | KListW => Copy | _ => Orig end.
+Definition child_fl (s : shape) (k : kind) (fl : flavour) : flavour :=
+  match k with
+  | KOne => fl
+  | KListW => match s with SLoopWrap => Copy | _ => Orig end
+  | _ => Orig
+  end.
 
 (* the alternative of an if/else-if/else chain that is walked *)
 Fixpoint pick_alt {A} (alts : list (shape * field)) (kids : list (field * list A)) : option (shape * field) :=
@@ -129,7 +133,7 @@ Definition visit_field (t : ty) (kw : list (field * list kidw)) (s : shape) (f :
   | Some d =>
       let ws := kids_of f kw in
       match mode_of s (f_kind d) with
-      | MNormal => run_elems ws (is_listw (f_kind d)) h v p f (child_fl (f_kind d) fl) 0
+      | MNormal => run_elems ws (is_listw (f_kind d)) h v p f (child_fl s (f_kind d) fl) 0
       | MByValue => (run_byval ws h v p f 0, false)
       | MNilUnsafe =>
           match ws with
@@ -192,19 +196,19 @@ Fixpoint tag_elems {A} (f : field) (asw : bool) (cfl : flavour) (l : list A) (i 
   | a :: r => ((f, i), a, asw, cfl) :: tag_elems f asw cfl r (S i)
   end.
 
-Definition field_children {A} (t : ty) (kids : list (field * list A)) (fl : flavour) (f : field)
+Definition field_children {A} (t : ty) (kids : list (field * list A)) (fl : flavour) (s : shape) (f : field)
   : list (step * A * bool * flavour) :=
   match fdesc_of t f with
   | None => []
-  | Some d => tag_elems f (is_listw (f_kind d)) (child_fl (f_kind d) fl) (kids_of f kids) 0
+  | Some d => tag_elems f (is_listw (f_kind d)) (child_fl s (f_kind d) fl) (kids_of f kids) 0
   end.
 
 Definition visit_children {A} (t : ty) (kids : list (field * list A)) (fl : flavour) (vi : visit)
   : list (step * A * bool * flavour) :=
   match vi with
-  | V1 _ f => field_children t kids fl f
+  | V1 s f => field_children t kids fl s f
   | VAlt alts => match pick_alt alts kids with
-                 | Some a => field_children t kids fl (snd a)
+                 | Some a => field_children t kids fl (fst a) (snd a)
                  | None => []
                  end
   end.
@@ -386,6 +390,12 @@ Definition type_covered (t : ty) : bool :=
   perm_eqb (visited t) (node_fields t) &&
   forallb (visit_ok t) (visits_of t) &&
   forallb target_ok (fields_of t).
+
+(* no arm walks a wrapper list through a by-value range: every node is handed over by its own address *)
+Definition shape_copy_free (s : shape) : bool := match s with SLoopWrap => false | _ => true end.
+Definition visit_copy_free (vi : visit) : bool :=
+  match vi with V1 s _ => shape_copy_free s | VAlt alts => forallb (fun a => shape_copy_free (fst a)) alts end.
+Definition copy_free : bool := forallb (fun t => forallb visit_copy_free (visits_of t)) (seq 0 ntypes).
 
 Definition covers : bool :=
   Nat.eqb (length (sp_wrapper G)) ntypes && Nat.eqb (length (sp_alts G)) ntypes &&
